@@ -366,3 +366,277 @@ Proof.
   apply Forall_forall. intros v Hv. eapply dofconn_range; eauto.
 Qed.
 Close Scope Z_scope.
+
+(* ------------------------------------------------------------------ link with SparseLin, symmetry, quadratic form *)
+Lemma map_flat_map {A B C} (g : B -> C) (f : A -> list B) (l : list A) :
+  map g (flat_map f l) = flat_map (fun a => map g (f a)) l.
+Proof. induction l as [|a l IH]; cbn [flat_map]; [reflexivity|]. rewrite map_app, IH. reflexivity. Qed.
+
+Lemma nth_map_seq {A} (f : nat -> A) m i d : (i < m)%nat -> nth i (map f (seq 0 m)) d = f i.
+Proof.
+  intros Hi. rewrite (nth_indep _ d (f 0%nat)) by (rewrite map_length, seq_length; exact Hi).
+  rewrite map_nth, seq_nth by exact Hi. reflexivity.
+Qed.
+
+Lemma In_select {A} (k : list bool) (l : list A) a : In a (select k l) -> In a l.
+Proof.
+  revert l; induction k as [|k0 k IH]; intros [|x l] Hin; cbn [select] in Hin; try contradiction.
+  destruct k0; [destruct Hin as [->|Hin]; [left; reflexivity|right; apply IH; exact Hin] | right; apply IH; exact Hin].
+Qed.
+
+Section Link.
+  Context {K : Type} `{Num K}.
+  Hypothesis Rth : ring_theory (@nzero K _) none_ nadd nmul nsub nopp (@eq K).
+  Add Ring KringL : Rth.
+  Local Open Scope num_scope.
+
+  (* entry (i, j) of SparseLin.dense *)
+  Definition tentry (T : list (@triple K)) (i j : nat) : K :=
+    fold_right (fun (t : @triple K) acc => match t with (d, s, c) =>
+                  if Nat.eqb d i && Nat.eqb s j then c + acc else acc end) nzero T.
+
+  Lemma dense_nth (T : list (@triple K)) m n i j : (i < m)%nat -> (j < n)%nat ->
+    nth j (nth i (dense T m n) []) nzero = tentry T i j.
+  Proof.
+    intros Hi Hj. unfold dense.
+    rewrite (nth_map_seq (fun i => map (fun j => _) (seq 0 n)) m i [] Hi).
+    rewrite (nth_map_seq _ n j nzero Hj). reflexivity.
+  Qed.
+
+  Definition zbounded (n : Z) (T : list (@ztriple K)) : Prop :=
+    Forall (fun t : @ztriple K => (0 <= fst (fst t) < n)%Z /\ (0 <= snd (fst t) < n)%Z) T.
+
+  Lemma tentry_zentry (T : list (@ztriple K)) n i j : zbounded n T -> (0 <= i)%Z -> (0 <= j)%Z ->
+    tentry (to_triples T) (Z.to_nat i) (Z.to_nat j) = zentry T i j.
+  Proof.
+    intros HT Hi Hj. induction HT as [|[[r c] v] T [Hr Hc] HT IH]; [reflexivity|].
+    cbn [fst snd] in Hr, Hc. unfold to_triples; cbn [map]. fold (to_triples T).
+    unfold tentry, zentry; cbn [fold_right]. fold (tentry (to_triples T) (Z.to_nat i) (Z.to_nat j)). fold (zentry T i j).
+    rewrite IH.
+    replace (Nat.eqb (Z.to_nat r) (Z.to_nat i)) with (Z.eqb r i)
+      by (destruct (Z.eqb_spec r i) as [->|Hne]; [symmetry; apply Nat.eqb_refl | symmetry; apply Nat.eqb_neq; lia]).
+    replace (Nat.eqb (Z.to_nat c) (Z.to_nat j)) with (Z.eqb c j)
+      by (destruct (Z.eqb_spec c j) as [->|Hne]; [symmetry; apply Nat.eqb_refl | symmetry; apply Nat.eqb_neq; lia]).
+    reflexivity.
+  Qed.
+
+  Lemma zbounded_tbounded n (T : list (@ztriple K)) : zbounded n T ->
+    tbounded (Z.to_nat n) (Z.to_nat n) (to_triples T).
+  Proof.
+    intros HT. unfold tbounded, to_triples. apply Forall_forall. intros t Hin.
+    apply in_map_iff in Hin as ([[r c] v] & <- & Hin). unfold zbounded in HT. rewrite Forall_forall in HT.
+    specialize (HT _ Hin). cbn [fst snd] in HT. lia.
+  Qed.
+
+  Lemma zbounded_app n (T1 T2 : list (@ztriple K)) : zbounded n T1 -> zbounded n T2 -> zbounded n (T1 ++ T2).
+  Proof. intros; apply Forall_app; split; assumption. Qed.
+
+  (* every index produced by the assembly lies in [0, n) *)
+  Lemma asm_zbounded g elmat bc bcdiagval cst x :
+    let ndof := asm_ndof g elmat in
+    wf g -> (0 <= ndof)%Z ->
+    match bc with None => True | Some bcl => Forall (fun b => (0 <= b < asm_n g ndof)%Z) bcl end ->
+    zbounded (asm_n g ndof) cst ->
+    zbounded (asm_n g ndof) (asm_matrix g elmat bc bcdiagval cst x).
+  Proof.
+    intros ndof Hwf Hn Hbc Hcst. unfold asm_matrix. apply zbounded_app; [|exact Hcst].
+    unfold asm_ztriples. fold ndof. set (m := Z.to_nat (elemnodes g * ndof)).
+    pose proof (dofconn_all_range g ndof Hwf Hn) as Hrange.
+    assert (Hrows : forall r, In r (kron_rows m (dofconn_all g ndof)) -> (0 <= r < asm_n g ndof)%Z).
+    { intros r Hr. unfold kron_rows in Hr. apply in_flat_map in Hr as (row & Hrow & Hr).
+      apply in_flat_map in Hr as (v & Hv & Hr). apply repeat_spec in Hr. subst r.
+      rewrite Forall_forall in Hrange. specialize (Hrange row Hrow). rewrite Forall_forall in Hrange. apply Hrange; exact Hv. }
+    assert (Hcols : forall c, In c (kron_cols m (dofconn_all g ndof)) -> (0 <= c < asm_n g ndof)%Z).
+    { intros c Hc. unfold kron_cols in Hc. apply in_flat_map in Hc as (row & Hrow & Hc).
+      apply in_concat in Hc as (r' & Hr' & Hc). apply repeat_spec in Hr'. subst r'.
+      rewrite Forall_forall in Hrange. specialize (Hrange row Hrow). rewrite Forall_forall in Hrange. apply Hrange; exact Hc. }
+    destruct bc as [bcl|].
+    - unfold zbounded, zip3. apply Forall_forall. intros [[r c] v] Hin. cbn [fst snd].
+      pose proof (in_combine_l _ _ _ _ Hin) as Hrc.
+      pose proof (in_combine_l _ _ _ _ Hrc) as Hr. pose proof (in_combine_r _ _ _ _ Hrc) as Hc.
+      rewrite Forall_forall in Hbc. split.
+      + apply in_app_or in Hr as [Hr|Hr]; [apply Hrows; eapply In_select; exact Hr | apply Hbc; exact Hr].
+      + apply in_app_or in Hc as [Hc|Hc]; [apply Hcols; eapply In_select; exact Hc | apply Hbc; exact Hc].
+    - unfold zbounded, zip3. apply Forall_forall. intros [[r c] v] Hin. cbn [fst snd].
+      pose proof (in_combine_l _ _ _ _ Hin) as Hrc.
+      split; [apply Hrows; eapply in_combine_l; exact Hrc | apply Hcols; eapply in_combine_r; exact Hrc].
+  Qed.
+
+  (* ---- symmetry ---- *)
+  Lemma scat_entry_sym m (elmat : list (list K)) dce i j : msym elmat ->
+    scat_entry m elmat dce i j = scat_entry m elmat dce j i.
+  Proof.
+    intros Hs. unfold scat_entry. rewrite nsum_swap by exact Rth.
+    apply nsum_map_ext. intros a _. apply nsum_map_ext. intros b _.
+    rewrite andb_comm. rewrite (Hs b a). reflexivity.
+  Qed.
+
+  Lemma asm_spec_sym g elmat bc bcdiagval cst x i j :
+    msym elmat -> (forall p q, zentry cst p q = zentry cst q p) ->
+    asm_spec g elmat bc bcdiagval cst x i j = asm_spec g elmat bc bcdiagval cst x j i.
+  Proof.
+    intros Hs Hc. unfold asm_spec. rewrite (Hc i j). f_equal.
+    assert (HS : forall dc, nsum (map (fun p : list Z * K => snd p * scat_entry (Z.to_nat (elemnodes g * asm_ndof g elmat)) elmat (fst p) i j) dc)
+                 = nsum (map (fun p : list Z * K => snd p * scat_entry (Z.to_nat (elemnodes g * asm_ndof g elmat)) elmat (fst p) j i) dc)).
+    { intros dc. apply nsum_map_ext. intros p _. rewrite (scat_entry_sym _ elmat (fst p) i j Hs). reflexivity. }
+    destruct bc as [bcl|]; [|apply HS].
+    rewrite HS, (orb_comm (isin i bcl)). f_equal.
+    destruct (Z.eqb_spec i j) as [->|Hne]; [rewrite Z.eqb_refl; reflexivity|].
+    replace (Z.eqb j i) with false by (symmetry; apply Z.eqb_neq; lia). reflexivity.
+  Qed.
+
+  Lemma to_triples_app (T1 T2 : list (@ztriple K)) : to_triples (T1 ++ T2) = to_triples T1 ++ to_triples T2.
+  Proof. unfold to_triples. apply map_app. Qed.
+
+  Lemma to_triples_flat_map {A} (f : A -> list (@ztriple K)) l :
+    to_triples (flat_map f l) = flat_map (fun a => to_triples (f a)) l.
+  Proof. unfold to_triples. apply map_flat_map. Qed.
+
+  (* ---- bilinear form: w^T A u = sum_e x_e * w_e^T K_e u_e ---- *)
+  Lemma tsum_app (T1 T2 : list (@triple K)) w u : tsum (T1 ++ T2) w u = tsum T1 w u + tsum T2 w u.
+  Proof.
+    induction T1 as [|[[d s] c] T1 IH]; cbn [app]; [rewrite tsum_nil; ring|].
+    rewrite !tsum_cons, IH. ring.
+  Qed.
+
+  Lemma tsum_flat_map {A} (f : A -> list (@triple K)) l w u :
+    tsum (flat_map f l) w u = nsum (map (fun a => tsum (f a) w u) l).
+  Proof.
+    induction l as [|a l IH]; cbn [flat_map map]; [reflexivity|]. rewrite tsum_app, IH. reflexivity.
+  Qed.
+
+  Lemma tsum_elem_row (ra : Z) (dce : list Z) (krow : list K) xe w u :
+    tsum (to_triples (map (fun q => (ra, fst q, snd q * xe)) (combine dce krow))) w u =
+    vget w (Z.to_nat ra) * xe * dot krow (gatherZ u dce).
+  Proof.
+    revert krow; induction dce as [|cb dce IH]; intros [|k krow]; cbn [combine map to_triples gatherZ];
+      rewrite ?tsum_nil, ?dot_nil_l, ?dot_nil_r; try ring.
+    unfold to_triples in *. cbn [fst snd]. rewrite tsum_cons, IH. unfold gatherZ. rewrite dot_cons. ring.
+  Qed.
+
+  Lemma tsum_elem (elmat : list (list K)) dce xe w u :
+    tsum (to_triples (elem_ztriples elmat dce xe)) w u = xe * bil elmat (gatherZ w dce) (gatherZ u dce).
+  Proof.
+    unfold elem_ztriples, bil. set (gu := gatherZ u dce).
+    assert (Hgen : forall rs M,
+      tsum (to_triples (flat_map (fun p => map (fun q => (fst p, fst q, snd q * xe)) (combine dce (snd p))) (combine rs M))) w u
+      = xe * dot (gatherZ w rs) (mvmul M gu)).
+    { induction rs as [|ra rs IH]; intros [|krow M]; cbn [combine flat_map gatherZ map mvmul];
+        rewrite ?dot_nil_l, ?dot_nil_r; try (cbn; ring).
+      rewrite to_triples_app, tsum_app. cbn [fst snd].
+      fold (mvmul M gu). fold (gatherZ w rs). rewrite dot_cons.
+      rewrite tsum_elem_row, IH. fold gu. ring. }
+    apply Hgen.
+  Qed.
+
+  Theorem asm_bilinear g elmat bcdiagval x w u :
+    let ndof := asm_ndof g elmat in
+    let m := Z.to_nat (elemnodes g * ndof) in
+    let N := Z.to_nat (asm_n g ndof) in
+    wf g -> (0 <= ndof)%Z -> mshape m m elmat -> length x = Z.to_nat (nel g) ->
+    length w = N -> length u = N ->
+    dot w (apply (to_triples (asm_ztriples g elmat None bcdiagval x)) N u) =
+    nsum (map (fun p => snd p * bil elmat (gatherZ w (fst p)) (gatherZ u (fst p))) (combine (dofconn_all g ndof) x)).
+  Proof.
+    intros ndof m N Hwf Hn Hsh Hx Hw Hu.
+    pose proof (asm_zbounded g elmat None bcdiagval [] x Hwf Hn I (Forall_nil _)) as Hb.
+    unfold asm_matrix in Hb. rewrite app_nil_r in Hb. apply zbounded_tbounded in Hb. fold ndof in Hb. fold N in Hb.
+    unfold apply. rewrite (dot_fold_r Rth _ N N) by (auto; apply repeat_length).
+    rewrite (dot_vzero_r Rth).
+    unfold asm_ztriples. fold ndof. fold m.
+    rewrite (zip3_all m) by (auto; apply dofconn_all_shape; assumption).
+    rewrite to_triples_flat_map, tsum_flat_map.
+    rewrite (nsum_map_ext _ (fun p => snd p * bil elmat (gatherZ w (fst p)) (gatherZ u (fst p)))).
+    - ring.
+    - intros [row xe] _. cbn [fst snd]. apply tsum_elem.
+  Qed.
+
+  (* ---- row sums:  (A u)[i] = sum over triples with destination i ---- *)
+  Definition trow (T : list (@triple K)) (x : list K) (i : nat) : K :=
+    fold_right (fun (t : @triple K) acc => match t with (d, s, c) =>
+                  if Nat.eqb d i then c * vget x s + acc else acc end) nzero T.
+
+  Lemma vget_vaddat (y : list K) d c i : (i < length y)%nat ->
+    vget (vaddat y d c) i = if Nat.eqb d i then vget y i + c else vget y i.
+  Proof.
+    revert d i; induction y as [|h t IH]; intros d i Hi; cbn in Hi; [lia|].
+    destruct d as [|d], i as [|i]; cbn [vaddat Nat.eqb]; unfold vget in *; cbn [nth]; try reflexivity.
+    apply IH. lia.
+  Qed.
+
+  Lemma vget_fold_step (T : list (@triple K)) x y i : (i < length y)%nat ->
+    vget (fold_left (step x) T y) i = vget y i + trow T x i.
+  Proof.
+    revert y; induction T as [|[[d s] c] T IH]; intros y Hi; cbn [fold_left trow fold_right].
+    - ring.
+    - rewrite IH by (unfold step; rewrite vaddat_length; exact Hi).
+      unfold step. rewrite vget_vaddat by exact Hi. fold (trow T x i).
+      destruct (Nat.eqb d i); ring.
+  Qed.
+
+  Lemma vget_vzero n i : vget (@vzero K _ n) i = nzero.
+  Proof. unfold vget, vzero. revert i; induction n as [|n IH]; intros [|i]; cbn; auto. Qed.
+
+  Lemma apply_vget (T : list (@triple K)) m x i : (i < m)%nat -> vget (apply T m x) i = trow T x i.
+  Proof.
+    intros Hi. unfold apply. rewrite vget_fold_step by (unfold vzero; rewrite repeat_length; exact Hi).
+    rewrite vget_vzero. ring.
+  Qed.
+
+  Lemma trow_app (T1 T2 : list (@triple K)) x i : trow (T1 ++ T2) x i = trow T1 x i + trow T2 x i.
+  Proof.
+    induction T1 as [|[[d s] c] T1 IH]; cbn [app]; [cbn; ring|].
+    cbn [trow fold_right]. fold (trow (T1 ++ T2) x i). fold (trow T1 x i). rewrite IH.
+    destruct (Nat.eqb d i); ring.
+  Qed.
+
+  Lemma trow_elem_row (ra : Z) (dce : list Z) (krow : list K) xe u i :
+    trow (to_triples (map (fun q => (ra, fst q, snd q * xe)) (combine dce krow))) u i =
+    if Nat.eqb (Z.to_nat ra) i then xe * dot krow (gatherZ u dce) else nzero.
+  Proof.
+    revert krow; induction dce as [|cb dce IH]; intros [|k krow]; cbn [combine map to_triples gatherZ];
+      rewrite ?dot_nil_l, ?dot_nil_r; try (cbn; destruct (Nat.eqb (Z.to_nat ra) i); ring).
+    unfold to_triples in *. cbn [fst snd trow fold_right].
+    fold (trow (map (fun t : @ztriple K => let '(r, c, v) := t in (Z.to_nat r, Z.to_nat c, v))
+                    (map (fun q : Z * K => (ra, fst q, snd q * xe)) (combine dce krow))) u i).
+    rewrite IH. unfold gatherZ. rewrite dot_cons. destruct (Nat.eqb (Z.to_nat ra) i); ring.
+  Qed.
+
+  (* an element whose matrix annihilates the gathered field contributes nothing *)
+  Lemma trow_elem_null (elmat : list (list K)) dce xe u i :
+    Forall (fun k => k = nzero) (mvmul elmat (gatherZ u dce)) ->
+    trow (to_triples (elem_ztriples elmat dce xe)) u i = nzero.
+  Proof.
+    unfold elem_ztriples. set (gu := gatherZ u dce). intros Hnull.
+    assert (Hgen : forall rs M, Forall (fun k => k = nzero) (mvmul M gu) ->
+      trow (to_triples (flat_map (fun p => map (fun q => (fst p, fst q, snd q * xe)) (combine dce (snd p))) (combine rs M))) u i = nzero).
+    { induction rs as [|ra rs IH]; intros [|krow M] HM; cbn [combine flat_map]; try reflexivity.
+      rewrite to_triples_app, trow_app. cbn [fst snd]. rewrite trow_elem_row.
+      cbn [mvmul map] in HM. inversion HM as [|? ? H0 HM']; subst. fold gu. rewrite H0.
+      rewrite IH by exact HM'. destruct (Nat.eqb (Z.to_nat ra) i); ring. }
+    apply Hgen. exact Hnull.
+  Qed.
+
+  (* lifting: if K_e annihilates the field gathered on every element, the assembled matrix annihilates the field *)
+  Theorem asm_apply_null g elmat bcdiagval x u :
+    let ndof := asm_ndof g elmat in
+    let m := Z.to_nat (elemnodes g * ndof) in
+    let N := Z.to_nat (asm_n g ndof) in
+    wf g -> (0 <= ndof)%Z -> mshape m m elmat ->
+    (forall row, In row (dofconn_all g ndof) -> Forall (fun k => k = nzero) (mvmul elmat (gatherZ u row))) ->
+    apply (to_triples (asm_ztriples g elmat None bcdiagval x)) N u = vzero N.
+  Proof.
+    intros ndof m N Hwf Hn Hsh Hnull.
+    apply (nth_ext _ _ nzero nzero); [rewrite apply_length; unfold vzero; rewrite repeat_length; reflexivity|].
+    intros i Hi. rewrite apply_length in Hi.
+    change (vget (apply (to_triples (asm_ztriples g elmat None bcdiagval x)) N u) i = vget (vzero N) i).
+    rewrite apply_vget by exact Hi. rewrite vget_vzero.
+    unfold asm_ztriples. fold ndof. fold m.
+    rewrite (zip3_all m) by (auto; apply dofconn_all_shape; assumption).
+    generalize (combine (dofconn_all g ndof) x) (fun p => in_combine_l (dofconn_all g ndof) x (fst p) (snd p)).
+    intros l Hl. induction l as [|[row xe] l IH]; [reflexivity|].
+    cbn [flat_map]. rewrite to_triples_app, trow_app. cbn [fst snd]. rewrite trow_elem_null.
+    - rewrite IH; [ring|]. intros p Hp. apply Hl. right. exact Hp.
+    - apply Hnull. apply (Hl (row, xe)). left. reflexivity.
+  Qed.
+End Link.
